@@ -4226,10 +4226,31 @@ func (c *Ctx) FixedBufferCopies(pkgs ...string) []core.Ob {
 						if lb, isB := lc.Common().Value.(*ssa.Builtin); !isB || lb.Name() != "len" {
 							continue
 						}
+						// room in the destination: the array length less the constant offset of the slice
+						room := int64(-1)
+						if arr, isArr := deref(al.Type()).Underlying().(*types.Array); isArr {
+							room = arr.Len()
+							if sl.Low != nil {
+								if lo, ok := constIntVal(sl.Low); ok {
+									room -= lo
+								} else {
+									room = -1
+								}
+							}
+						}
 						for _, u := range *lc.Referrers() {
 							if cmp, ok := u.(*ssa.BinOp); ok && cmp.Block() != b && cmp.Block().Dominates(b) {
 								switch cmp.Op {
 								case token.LSS, token.LEQ, token.GTR, token.GEQ:
+									// a bound that is a constant has to be one the destination has room for
+									// (a check against the 16-bit prefix limit says nothing about a 256-byte buffer)
+									other := cmp.Y
+									if other == ssa.Value(lc) {
+										other = cmp.X
+									}
+									if kv, isK := constIntVal(other); isK && room >= 0 && kv > room+1 {
+										continue
+									}
 									guarded = true
 								}
 							}
